@@ -5,6 +5,7 @@ import (
 	"fmt"
 	"sort"
 	"strings"
+	"sync"
 
 	exserver "github.com/cybergarage/go-redis/examples/go-redisd/server"
 	"github.com/cybergarage/go-redis/redis"
@@ -63,10 +64,30 @@ func newCluster(tape *sim.Tape, o *Outcome) *cluster {
 		switch point {
 		case "exec.lock":
 			if s.Serial {
-				s.Park(taskNameFor(obj), "yield:exec.lock", obj, func() bool { return !cl.execHeld })
-				if cl.execHeld {
-					s.Count("exec_lock_acquired_while_held") // only during teardown
+				// The task may proceed to the real Lock() only when that call cannot block: the lock the
+				// code is about to take is probed with TryLock while every task is parked. The exclusion
+				// itself is therefore provided by the REAL mutex (a per-connection mutex, or no mutex at
+				// all, lets several tasks through), not by the scheduler.
+				free := func() bool { return !cl.execHeld }
+				switch mu := obj.(type) {
+				case *sync.Mutex:
+					free = func() bool {
+						if mu.TryLock() {
+							mu.Unlock()
+							return true
+						}
+						return false
+					}
+				case *sync.RWMutex:
+					free = func() bool {
+						if mu.TryLock() {
+							mu.Unlock()
+							return true
+						}
+						return false
+					}
 				}
+				s.Park("?", "yield:exec.lock", obj, free)
 				cl.execHeld = true
 				s.Count("exec_lock_acquisitions")
 			}
